@@ -14,6 +14,11 @@ def main():
     sys.exit(mod.replay(sys.argv[3]))
   if tier not in ('quick', 'thorough'):
     print('usage: check Cxx quick|thorough|--replay file'); sys.exit(2)
+  limit = float(os.environ.get('VERIF_CHECK_TIMEOUT', '') or (2400 if tier == 'quick' else 6 * 3600))
+  import threading
+  wd = threading.Timer(limit, _watchdog, args=(pid, limit))
+  wd.daemon = True
+  wd.start()
   try:
     rc = mod.run(tier, seed)
   except Exception:
@@ -27,8 +32,31 @@ def main():
     with open(path, 'w') as f:
       json.dump({'property': pid, 'what': 'correspondence could not be executed against this tree', 'traceback': tb}, f, indent=1)
     print('VIOLATION property=%s replay=%s no-failing-input-found' % (pid, path))
-    sys.exit(1)
-  sys.exit(rc)
+    _leave(1)
+  _leave(rc)
+
+
+def _leave(rc):
+  """Exit without waiting for abandoned (hung) service threads."""
+  sys.stdout.flush()
+  sys.stderr.flush()
+  os._exit(rc or 0)
+
+
+def _watchdog(pid, limit):
+  """The check did not finish: a call into the code under test hangs. Fail closed with the stacks of all threads."""
+  import json
+  from harness import common
+  stacks = {}
+  for tid, fr in sys._current_frames().items():
+    stacks[str(tid)] = ''.join(traceback.format_stack(fr)[-8:])
+  os.makedirs(common.REPLAY, exist_ok=True)
+  path = os.path.join(common.REPLAY, '%s-did-not-finish.json' % pid)
+  with open(path, 'w') as f:
+    json.dump({'property': pid, 'what': 'the check did not finish within %g s: a call into the code under test does '
+               'not return (deadlock?)' % limit, 'thread_stacks': stacks}, f, indent=1)
+  print('VIOLATION property=%s replay=%s no-failing-input-found' % (pid, path))
+  _leave(1)
 
 
 if __name__ == '__main__':
